@@ -198,3 +198,54 @@ def r16j(R):
             R.fail(lex, attr, 'the regex %s is compiled case-insensitively' % attr)
     if n < 3:
         raise AnalysisError('Lex: only %d methods' % n)
+
+
+LOOP = 'bardolph.parser.loop_parser'
+
+
+@rule('R04.n', ('C04', 'C01'), 'the names of an `in` list are pushed in '
+      'reverse: each item\'s code is built aside and appended after the code '
+      'of the items that follow it', floor=2,
+      decides='the loop variable is bound to the lights, groups and locations '
+              'in the order the source lists them (the evaluation stack is '
+              'last-in first-out)')
+def r04n(R):
+    A = R.A
+    f = A.func(LOOP, 'LoopParser._pre_loop_list')
+    outer = f.params[1] if len(f.params) > 1 else 'code_gen'
+    cfg = A.cfg(f)
+    parents = {}
+    for node in walk_own(f.node):
+        for ch in ast.iter_child_nodes(node):
+            parents[id(ch)] = node
+    rec, app, other = [], [], []
+    for x in walk_own(f.node):
+        if not (isinstance(x, ast.Name) and x.id == outer
+                and isinstance(x.ctx, ast.Load)):
+            continue
+        p = parents.get(id(x))
+        if isinstance(p, ast.Call) and x in p.args and f in A.callees(f, p):
+            rec.append(p)
+        elif isinstance(p, ast.Attribute) and p.attr in ('add_instructions',) \
+                and isinstance(parents.get(id(p)), ast.Call):
+            app.append(parents[id(p)])
+        else:
+            other.append(x)
+    if not rec or not app:
+        raise AnalysisError('_pre_loop_list: recursive call / final append not '
+                            'found (%d / %d)' % (len(rec), len(app)))
+    R.check(f, 'the outer code generator is only handed on to the rest of the '
+            'list and appended to at the end', not other,
+            'the item being parsed emits into the outer code generator '
+            'directly (%s): its names are pushed before those of the items '
+            'that follow, so they are popped - visited - after them' % (
+                norm(parents.get(id(other[0]), other[0]))[:60] if other else ''),
+            line=other[0].lineno if other else 0)
+    app_nodes = [n for c in app for n in A.node_of_call(f, c)]
+    rec_nodes = [n for c in rec for n in A.node_of_call(f, c)]
+    p = cfg.find_path([m for n in app_nodes for m, _l in n.succs],
+                      lambda n: n in rec_nodes)
+    R.check(f, 'append after the recursive call', p is None,
+            'the item\'s code is appended before the rest of the list is '
+            'compiled: the order of the loop is reversed',
+            path=path_text(p) if p else None)
